@@ -244,15 +244,19 @@ async fn apply(w: &mut World, mgr: &Arc<Mgr>, ev: &Value) -> (bool, Option<Value
         "proc" => {
             let h = w.hashes[ev["h"].as_u64().unwrap() as usize].clone();
             let c = ev["c"].as_u64().unwrap() as usize;
+            let is_timeout = ev["fault"].as_str() == Some("timeout");
             let fault = match ev["fault"].as_str().unwrap_or("none") {
                 "rej" => Fault::Rejected(errkind(ev)),
                 "abe" => Fault::AppliedButError(errkind(ev)),
+                // lightningd's answer to a waitsendpay whose timeout expired while the part is pending: error 200, no effect
+                "timeout" => Fault::Rejected(ErrKind::Code(200)),
                 _ => Fault::None,
             };
             let reply = {
                 let mut n = w.node.lock().unwrap();
                 let ci = match find_call(&n, &h, c) { Some(ci) => ci, None => return (false, None) };
                 if n.calls[ci].status != CStat::Unprocessed || n.calls[ci].epoch != n.epoch { return (false, None); }
+                if is_timeout && !wait_timed_out(&n, ci) { return (false, None); }
                 let r = n.exec(ci, &fault);
                 let is_pay = matches!(n.calls[ci].q, Q::Pay { .. });
                 match &r {
@@ -415,6 +419,16 @@ fn view(w: &mut World) -> View {
     v
 }
 
+/// A waitsendpay that carried a timeout (the unchanged plugin passes none), on a part still pending, whose timeout has elapsed
+/// on the virtual clock.
+fn wait_timed_out(n: &Node, ci: usize) -> bool {
+    if let Q::WaitPart { groupid, partid, timeout: Some(t) } = &n.calls[ci].q {
+        let pending = n.calls[ci].hash.as_ref().and_then(|h| n.hashes.get(h)).map(|hn| hn.parts.iter().any(|p| Some(p.groupid) == *groupid && Some(p.partid) == *partid && p.status == PStat::Pend)).unwrap_or(false);
+        return pending && n.vnow_ms >= n.calls[ci].issue_ms + (*t as u64) * 1000;
+    }
+    false
+}
+
 fn wait_is_pending(w: &World, hi: usize, c: usize) -> bool {
     let n = w.node.lock().unwrap();
     let h = &w.hashes[hi];
@@ -453,7 +467,11 @@ fn expand(w: &mut World, ev: &Value) -> Vec<Value> {
             for (h, c, k) in v.unprocessed.iter() {
                 if hsel.map(|x| x != *h).unwrap_or(false) { continue; }
                 if w.held.contains(&(*h, *c)) { continue; }
-                if k == "wait" && wait_is_pending(w, *h, *c) { continue; }
+                if k == "wait" && wait_is_pending(w, *h, *c) {
+                    let timed_out = { let n = w.node.lock().unwrap(); find_call(&n, &w.hashes[*h], *c).map(|ci| wait_timed_out(&n, ci)).unwrap_or(false) };
+                    if timed_out { return vec![json!({"e": "proc", "h": h, "c": c, "fault": "timeout"})]; }
+                    continue;
+                }
                 return vec![json!({"e": "proc", "h": h, "c": c, "fault": "none"})];
             }
             vec![]
@@ -480,7 +498,11 @@ fn walk_next(w: &mut World, r: &mut SplitMix, wt: &Value, pool: &Vec<Value>, ste
     if !pool.is_empty() { opts.push((g("htlc", 5), json!({"e": "htlc_pool"}))); }
     for (h, c, k) in v.unprocessed.iter() {
         let pend_wait = k == "wait" && wait_is_pending(w, *h, *c);
-        if pend_wait { opts.push((g("proc_pending_wait", 1), json!({"e": "proc", "h": h, "c": c, "fault": "none"}))); continue; }
+        if pend_wait {
+            let timed_out = { let n = w.node.lock().unwrap(); find_call(&n, &w.hashes[*h], *c).map(|ci| wait_timed_out(&n, ci)).unwrap_or(false) };
+            if timed_out { opts.push((g("proc", 30), json!({"e": "proc", "h": h, "c": c, "fault": "timeout"}))); }
+            opts.push((g("proc_pending_wait", 1), json!({"e": "proc", "h": h, "c": c, "fault": "none"}))); continue;
+        }
         opts.push((g("proc", 30), json!({"e": "proc", "h": h, "c": c, "fault": "none"})));
         let errs = ["transport", "-1", "200", "210", "nocode"];
         let e = errs[r.below(errs.len() as u64) as usize];
